@@ -560,6 +560,13 @@ const LIT_ALPHABET: &[&str] = &[
     "}", ",", ";", ":", "::", "..", "..=", "-", "+", "_", "Foo", "x", "a", "None", "Some", "/*", "//", "\u{e9}", "\n", "=", ".",
 ];
 
+/// Tower inputs `<shape> depth <d>` that are left-deep chains with at least 1024 links.
+fn is_long_chain_tower(origin: &str) -> bool {
+    const CHAINS: &[&str] = &["binary-chain", "cast-chain", "field-chain", "index-chain"];
+    let Some((shape, depth)) = origin.split_once(" depth ") else { return false };
+    CHAINS.contains(&shape) && depth.parse::<usize>().map(|d| d >= 1024).unwrap_or(false)
+}
+
 fn has_suffix_free_number(src: &str) -> bool {
     lex(src).iter().any(|(s, e)| src[*s..*e].bytes().all(|b| b.is_ascii_digit()))
 }
@@ -666,6 +673,12 @@ impl St {
                 } else {
                     self.hang_candidates.push(inp.clone());
                 }
+            }
+            // known finding KF-C07-2: left-deep operator / postfix chains of >= 1024 links (built by
+            // loops in the parser, so the nesting limit does not bound them) overflow the stack of the
+            // recursive type checker / compiler. Keyed on the exact tower inputs (shape and depth).
+            Out::Died(_, how) if how.contains("stack") && inp.class == "nesting tower / repetition" && is_long_chain_tower(&inp.origin) => {
+                self.finding("died:stack-overflow:left-deep-chain-of-1024-or-more-links".into(), inp, format!("worker process died: {how} ({})", inp.origin));
             }
             Out::Died(stage, how) => {
                 if stage == "compile" && how == "allocation-failure" {
@@ -1227,7 +1240,8 @@ pub fn run(ctx: &Ctx) -> i32 {
         // -- D: token soup, random text, comments, towers
         let d_end = if thorough { 0.93 } else { 0.90 };
         // towers first (enumerated over depths)
-        let depths: &[usize] = if thorough { &[1, 2, 3, 5, 8, 16, 32, 64, 100, 128, 200, 256] } else { &[1, 2, 3, 8, 32, 128, 256] };
+        // (the parser limits nesting to 128 levels; depths around the limit and far beyond it)
+        let depths: &[usize] = if thorough { &[1, 2, 3, 5, 8, 16, 32, 64, 100, 126, 127, 128, 129, 200, 256, 512, 1024, 2048, 4096] } else { &[1, 2, 3, 8, 32, 64, 127, 128, 129, 256, 1024, 4096] };
         for d in depths {
             for (name, text) in towers(*d) {
                 if mine(&mut k) {
@@ -1315,7 +1329,8 @@ pub fn run(ctx: &Ctx) -> i32 {
             f.push(Input { class: "literal: random text", origin: b.origin.clone(), kind: 'L', compile: false, text: frame(&rt) });
             // a program fed as a literal, a literal tower
             if rng.chance(1, 20) {
-                let d = 1 + rng.usize_below(256);
+                let dmax = if rng.bool() { 256 } else { 4096 };
+                let d = 1 + rng.usize_below(dmax);
                 f.push(Input { class: "literal: nesting tower", origin: b.origin.clone(), kind: 'L', compile: false, text: frame(&format!("{}1{}", "(".repeat(d), ")".repeat(d))) });
                 f.push(Input { class: "literal: nesting tower", origin: b.origin.clone(), kind: 'L', compile: false, text: frame(&"[".repeat(d)) });
             }
@@ -1407,7 +1422,7 @@ pub fn run(ctx: &Ctx) -> i32 {
         vec![
             "termination is decided as bounded progress: a 10 s deadline per input, re-run alone with 60 s before a hang in scan/parse/check is reported".into(),
             "time-outs and allocation failures in the compile stage are not judged (a mutant may describe an enormous circuit)".into(),
-            "worker front-end thread has the default main-thread stack of 8 MiB; nesting depth of generated towers <= 256".into(),
+            "worker front-end thread has the default main-thread stack of 8 MiB; nesting towers / repetitions up to depth 4096 (48 shapes)".into(),
         ],
         20_000,
     )
